@@ -175,6 +175,10 @@ Definition dispatch (req : list Z) : list Z :=
   | 91 :: t => run (m <- dZ ;; f <- dfmt ;; cs <- dlist dZ ;; n <- dZ ;; dret (m, f, cs, n))
                 (fun '(m, f, cs, n) => eoutcome (fun p => efmt (fst p) ++ elist (fun z => [z]) (snd p))
                                                 (rshift_fmt_codes (if m =? 0 then ShExpand else ShKeep) f cs n)) t
+  (* 92: x << n on an array *)
+  | 92 :: t => run (m <- dZ ;; f <- dfmt ;; cs <- dlist dZ ;; n <- dZ ;; dret (m, f, cs, n))
+                (fun '(m, f, cs, n) => eoutcome (fun p => efmt (fst p) ++ ewres (fst p) (snd p))
+                                               (fxp_lshift_arr (if m =? 0 then ShExpand else ShKeep) f cs n)) t
   (* 100: size inference: signed (0 F,1 T,2 None) then optional n_word n_frac n_int (flag, value), values *)
   | 100 :: t => run (sg_ <- dZ ;; hw <- dbool ;; w <- dZ ;; hf <- dbool ;; fr <- dZ ;; hi <- dbool ;; ni <- dZ ;; hv <- dbool ;; vs <- dlist ddy ;;
                      dret (sg_, hw, w, hf, fr, hi, ni, hv, vs))
